@@ -35,7 +35,7 @@ def run(run):
             # the syntactic inventory did not SEE the reset (e.g. it is written as a loop with setattr), but running the real PEP() on dirtied state shows the
             # location back at its class-body value: the finding is an analysis limit, not a violation
             run.undecide(oid, detail + ' [syntactic inventory only: executing PEP() on dirtied state does reset this location]')
-        elif not ok and 'called_only_when_a_model_is_created' in oid:
+        elif not ok and ('called_only_when_a_model_is_created' in oid or 'no_mutable_default' in oid):
             # another caller is not by itself a violation (an explicit user-invoked reset would be legitimate): the histories below decide
             run.undecide(oid, detail)
         elif not ok:
